@@ -1,11 +1,8 @@
-mod c04;
-mod c06;
-mod c08;
-mod c12;
-mod c13;
+mod dispatch;
 mod out;
 mod rng;
 mod sx;
+include!("mods.rs");
 
 use std::io::BufRead;
 
@@ -29,46 +26,9 @@ fn main() {
             .filter(|l| !l.trim().is_empty() && !l.starts_with('#'))
             .filter_map(|l| sx::parse(&l))
             .collect();
-        match prop {
-            "C13" => {
-                let ctx = c13::Ctx::new();
-                for r in &reqs {
-                    let (i, o, nt) = ctx.exec(r);
-                    out.case(&i, &o, nt, r);
-                }
-            }
-            "C04" => {
-                let ctx = c04::Ctx::new();
-                for r in &reqs {
-                    let (i, o, nt) = ctx.exec(r);
-                    out.case(&i, &o, nt, r);
-                }
-            }
-            "C12" => {
-                let ctx = c12::Ctx::new();
-                for r in &reqs {
-                    let (i, o, nt) = ctx.exec(r);
-                    out.case(&i, &o, nt, r);
-                }
-            }
-            "C06" => {
-                let ctx = c06::Ctx::new();
-                for r in &reqs {
-                    let (i, o, nt) = ctx.exec(r);
-                    out.case(&i, &o, nt, r);
-                }
-            }
-            "C08" => {
-                let ctx = c08::Ctx::new();
-                for r in &reqs {
-                    let (i, o, nt) = ctx.exec(r);
-                    out.case(&i, &o, nt, r);
-                }
-            }
-            _ => {
-                eprintln!("unknown property {}", prop);
-                std::process::exit(2);
-            }
+        if !dispatch::replay(prop, &reqs, &mut out) {
+            eprintln!("unknown property {}", prop);
+            std::process::exit(2);
         }
         out.finish("replay of stored requests", false);
         return;
@@ -76,28 +36,9 @@ fn main() {
     let tier = args[3].as_str();
     let seed: u64 = args[4].parse().unwrap_or(0);
     let mut out = out::Out::new(&args[5], &args[6]);
-    match prop {
-        "C13" => {
-            c13::generate(&mut out, tier, seed);
-            out.finish(c13::RULE, true);
-        }
-        "C04" => {
-            c04::generate(&mut out, tier, seed);
-            out.finish(c04::RULE, true);
-        }
-        "C12" => {
-            c12::generate(&mut out, tier, seed);
-            out.finish(c12::RULE, false);
-        }
-        "C06" => {
-            c06::generate(&mut out, tier, seed);
-            out.finish(c06::RULE, true);
-        }
-        "C08" => {
-            c08::generate(&mut out, tier, seed);
-            out.finish(c08::RULE, true);
-        }
-        _ => {
+    match dispatch::generate(prop, &mut out, tier, seed) {
+        Some((rule, exhaustive)) => out.finish(rule, exhaustive),
+        None => {
             eprintln!("unknown property {}", prop);
             std::process::exit(2);
         }
